@@ -6,7 +6,7 @@
    Conventions: C `int` = Z; bytes = N; the data array is a list of size+1 slots (the C array has `alloc`
    bytes, of which size+1 are addressable through the indices; the magic cookies around it are not modelled,
    an index outside 0..size is what the invariant excludes).  realloc() is assumed to succeed; the bytes it
-   adds are unspecified in C and 0 here (they are never read before being written: Proofs/CbufGrow.v).
+   adds are unspecified in C and 0 here (they are never read before being written: grow_spec in Proofs/CbufWrite.v).
    WITH_PTHREADS is off in powerman's build: the mutex macros are empty. *)
 From Coq Require Import List ZArith Bool Lia.
 From PM Require Import Base.Bytes Gen.GenCbuf.
@@ -341,4 +341,45 @@ Definition peek_line (cb : cbuf) (len lines : Z) : Z * list byte :=
 Definition read_line (cb : cbuf) (len lines : Z) : cbuf * Z * list byte :=
   match peek_line cb len lines with
   | (n, bytes) => (if 0 <? n then dropper cb n else cb, n, bytes)
+  end.
+
+(* ---- the API as one step function (what R-CBUF drives, one op per harness line) ------------------------ *)
+(* every data byte the descriptor script still holds, in order *)
+Definition fd_bytes (scr : list fdres) : list byte :=
+  flat_map (fun r => match r with FdData b => b | _ => [] end) scr.
+
+Inductive op :=
+| OWrite (bs : list byte)                 (* cbuf_write (cb, bs, |bs|, &dropped)            *)
+| OWriteFd (fd : list fdres) (len : Z)    (* cbuf_write_from_fd (cb, fd, len, &dropped)     *)
+| OPeek (len : Z)                         (* cbuf_peek (cb, dst, len)                       *)
+| ODrop (len : Z)                         (* cbuf_drop (cb, len)                            *)
+| ORead (len : Z)                         (* cbuf_read (cb, dst, len)                       *)
+| OPeekLine (len lines : Z)               (* cbuf_peek_line (cb, dst, len, lines)           *)
+| OReadLine (len lines : Z)               (* cbuf_read_line (cb, dst, len, lines)           *)
+| OReadFd (script : list Z) (len : Z)     (* cbuf_read_to_fd (cb, fd, len)                  *)
+| OFlush                                  (* cbuf_flush (cb)                                *)
+| OUsed.                                  (* cbuf_used (cb)                                 *)
+
+(* what the caller observes: return value, bytes that reached dst / the descriptor, *ndropped, and what is left
+   in the descriptor the op read from (for ops without such an output the field is 0 / [] ) *)
+Record out := mkOut { o_ret : Z; o_bytes : list byte; o_dropped : Z; o_fd : list fdres }.
+
+Definition step (cb : cbuf) (o : op) : cbuf * out :=
+  match o with
+  | OWrite bs => match write cb bs with (cb', n, d) => (cb', mkOut n [] d []) end
+  | OWriteFd fd len => match write_from_fd cb fd len with (cb', n, d, fd') => (cb', mkOut n [] d fd') end
+  | OPeek len => match peek cb len with (n, b) => (cb, mkOut n b 0 []) end
+  | ODrop len => match drop cb len with (cb', n) => (cb', mkOut n [] 0 []) end
+  | ORead len => match read cb len with (cb', n, b) => (cb', mkOut n b 0 []) end
+  | OPeekLine len lines => match peek_line cb len lines with (n, b) => (cb, mkOut n b 0 []) end
+  | OReadLine len lines => match read_line cb len lines with (cb', n, b) => (cb', mkOut n b 0 []) end
+  | OReadFd script len => match read_to_fd cb script len with (cb', n, b, _) => (cb', mkOut n b 0 []) end
+  | OFlush => (flush cb, mkOut 0 [] 0 [])
+  | OUsed => (cb, mkOut (used cb) [] 0 [])
+  end.
+
+Fixpoint run (cb : cbuf) (ops : list op) : cbuf * list out :=
+  match ops with
+  | [] => (cb, [])
+  | o :: rest => match step cb o with (cb1, r) => match run cb1 rest with (cb2, rs) => (cb2, r :: rs) end end
   end.
